@@ -49,6 +49,9 @@ var corpusScenarios = []corpusScenario{
 	{"address-spellings", false, corpusAddressSpellings},
 	{"bridge-mixed-batches", false, corpusBridgeMixedBatches},
 	{"take-across-25-batches", false, corpusTakeAcrossManyBatches},
+	{"update-order-in-removed-denom", false, corpusUpdateInRemovedDenom},
+	{"market-in-basket-denom", false, corpusMarketInBasketDenom},
+	{"credit-type-abbreviation-prefixes", false, corpusCreditTypePrefixes},
 }
 
 func init() { QuickCounts["corpus"] = len(corpusScenarios) }
@@ -806,5 +809,87 @@ func corpusTakeAcrossManyBatches(c Cfg) *Result {
 	g.Do(a.MsgBasketTake(0, bd, "3000000", false, "", ""), "take the last three")
 	g.Do(a.MsgBasketTake(0, bd, "1", false, "", ""), "take from the empty basket")
 	g.Commit()
+	return g.Finish()
+}
+
+// ---- update-order-in-removed-denom (C06) -------------------------------------------------------------------
+// An order's ask denom must be on the allow list whenever the order is (re)priced: also when the update keeps the
+// order's current denom and governance has removed that denom in the meantime.
+
+func corpusUpdateInRemovedDenom(c Cfg) *Result {
+	g := NewG(c, chain.Options{GenesisTime: T0})
+	a := g.App
+	g.Begin(g.now.Add(6 * time.Second))
+	g.setupDenoms()
+	_, _, denom := g.corpusWorld()
+	g.Do(a.MsgSell(1, chain.SellOrder(denom, "10", coin("uatom", 5), true, nil)), "user 1 sells 10 at 5uatom")
+	id := g.Rec.State().Sequences["SellOrder"]
+	g.Commit()
+	g.Begin(g.nextTime())
+	upd := func(q string, d string, ask int64) *market.MsgUpdateSellOrders_Update {
+		return &market.MsgUpdateSellOrders_Update{SellOrderId: id, NewQuantity: q, NewAskPrice: coin(d, ask), DisableAutoRetire: true}
+	}
+	g.Do(a.MsgUpdateSellOrders(1, upd("10", "uatom", 6)), expectNote(true, "C06", "update-in-allowed-denom-rejected", "re-pricing in uatom while uatom is allowed"))
+	g.Do(a.MsgRemoveAllowedDenom("uatom"), "gov: uatom is no longer allowed (the order stays open)")
+	g.Do(a.MsgUpdateSellOrders(1, upd("10", "uatom", 7)), expectNote(false, "C06", "order-updated-to-disallowed-denom", "re-pricing in the order's own denom uatom after its removal"))
+	g.Do(a.MsgUpdateSellOrders(1, upd("9", "uatom", 6)), expectNote(false, "C06", "order-updated-to-disallowed-denom", "changing the quantity with an (unchanged) price in the removed denom"))
+	g.Do(a.MsgUpdateSellOrders(1, upd("10", "uregen", 7)), expectNote(true, "C06", "update-in-allowed-denom-rejected", "moving the order to the allowed denom uregen"))
+	g.Do(a.MsgUpdateSellOrders(1, upd("10", "uatom", 7)), expectNote(false, "C06", "order-updated-to-disallowed-denom", "moving it back to the removed denom"))
+	g.Do(a.MsgAddAllowedDenom("uatom", "atom", 6), "gov: uatom allowed again")
+	g.Do(a.MsgUpdateSellOrders(1, upd("10", "uatom", 7)), expectNote(true, "C06", "update-in-allowed-denom-rejected", "and now it may be priced in uatom again"))
+	g.Commit()
+	return g.Finish()
+}
+
+// ---- market-in-basket-denom (C05) -----------------------------------------------------------------------------
+// A basket token is an ordinary bank denom: governance may allow it in the marketplace, and fees may be charged in it.
+// Trading in it must never change the basket token's supply (only Put mints and only Take burns).
+
+func corpusMarketInBasketDenom(c Cfg) *Result {
+	g := NewG(c, chain.Options{GenesisTime: T0})
+	a := g.App
+	g.Begin(g.now.Add(6 * time.Second))
+	cid, _, denom := g.corpusWorld()
+	res := g.Do(a.MsgBasketCreate(2, "NCT", "basket", "C", []string{cid}, true, nil, g.basketFee(g.V())), "basket NCT")
+	bd := respField(res, "basket_denom")
+	g.Do(a.MsgBasketPut(3, bd, chain.BasketCredit(denom, "50")), "user 3 deposits 50 credits and holds 50000000 basket tokens")
+	g.Do(a.MsgAddAllowedDenom(bd, "NCT", 6), "gov: the basket denom may be used as ask denom")
+	g.Do(a.MsgGovSetFeeParams("0.02", "0.01"), "gov: buyer fee 2 %, seller fee 1 %")
+	g.Do(a.MsgSell(1, chain.SellOrder(denom, "10", coin(bd, 100000), true, nil)), "user 1 sells 10 credits at 100000 basket tokens each")
+	id := g.Rec.State().Sequences["SellOrder"]
+	g.Commit()
+	g.Begin(g.nextTime())
+	g.Do(a.MsgBuyDirect(3, chain.BuyOrder(id, "5", coin(bd, 100000), true, "", "", coin(bd, 1000000))), expectNote(true, "C05", "buy-in-basket-denom-rejected", "user 3 buys 5 credits paying in basket tokens: the fee stays in the fee pool, the token supply must not change"))
+	g.Do(a.MsgBasketTake(3, bd, "1000000", false, "", ""), "a take afterwards")
+	g.Commit()
+	g.GenesisRT("after a trade in basket tokens")
+	return g.Finish()
+}
+
+// ---- credit-type-abbreviation-prefixes (C14) ---------------------------------------------------------------------
+// Credit type abbreviations that are prefixes of one another (C / CA / CAR): the class sequences are per credit
+// type, whatever the order in which their first classes are created.
+
+func corpusCreditTypePrefixes(c Cfg) *Result {
+	g := NewG(c, chain.Options{GenesisTime: T0})
+	a := g.App
+	g.Begin(g.now.Add(6 * time.Second))
+	g.Do(a.MsgAddCreditType(&base.CreditType{Abbreviation: "CA", Name: "carbon avoided", Unit: "t", Precision: 6}), "gov: credit type CA (C exists)")
+	g.Do(a.MsgAddCreditType(&base.CreditType{Abbreviation: "CAR", Name: "carbon removed", Unit: "t", Precision: 6}), "gov: credit type CAR")
+	mk := func(ct, want string) {
+		res := g.Do(a.MsgCreateClass(0, []int{0}, "md", ct, g.classFeeCoin()), "class of type "+ct+" (expected id "+want+")")
+		if got := respField(res, "class_id"); got != want {
+			g.Do(a.MsgSealBatch(0, "expected-"+want+"-got-"+got), expectNote(true, "C14", "non-consecutive-class-id", "the class of type "+ct+" was numbered "+got+" instead of "+want))
+		}
+	}
+	mk("CAR", "CAR01")
+	mk("CA", "CA01")
+	mk("CA", "CA02")
+	mk("CAR", "CAR02")
+	mk("C", "C01") // the first class of the shortest abbreviation comes last
+	mk("C", "C02")
+	mk("CA", "CA03")
+	g.Commit()
+	g.GenesisRT("classes of three prefix-related credit types")
 	return g.Finish()
 }
